@@ -1,8 +1,328 @@
+/-
+  C15 — property theorems: QR factors and eigenpairs satisfy their defining equations.
+  The algebraic clauses are stated over Mathlib matrices (`Matrix n n ℚ`, any finite index type, i.e.
+  every size); the clauses about the loops are stated on the executable model (`LpModel/C15.lean`).
+  Definitions: `LpProofs/C15/Defs.lean`; bridging lemmas list model ↔ Mathlib: `LpProofs/C15/Bridge.lean`.
+  Convergence of the unshifted iteration and termination of inverse iteration are NOT theorems
+  (correspondence / oracle only, DESIGN.md §6 C15).
+-/
 import LpModel.C15
+import LpProofs.C15.Defs
+import LpProofs.C15.Bridge
+import Mathlib.LinearAlgebra.Matrix.Trace
+import Mathlib.LinearAlgebra.Matrix.Determinant.Basic
+import Mathlib.LinearAlgebra.Matrix.NonsingularInverse
+import Mathlib.LinearAlgebra.Matrix.Charpoly.Basic
+import Mathlib.Tactic.Ring
+import Mathlib.Tactic.LinearCombination
+import Mathlib.Tactic.Linarith
+import Mathlib.Tactic.FieldSimp
 namespace Lp.C15
-theorem sign2_zero (x : Rat) (hx : x ≠ 0) : sign2 x 0 = -x := by
+open Matrix
+
+section Algebra
+variable {n : Type} [Fintype n] [DecidableEq n]
+
+theorem householder_orthogonal_symmetric (u : n → ℚ) (hu : u ⬝ᵥ u = 1) :
+    (reflector u)ᵀ = reflector u ∧ reflector u * reflector u = 1 := by
+  constructor
+  · simp only [reflector, transpose_sub, transpose_one, transpose_smul, transpose_vecMulVec]
+  · have h2 : vecMulVec u u * vecMulVec u u = vecMulVec u u := by
+      rw [vecMulVec_mul_vecMulVec, hu, one_smul]
+    simp only [reflector, sub_mul, mul_sub, one_mul, mul_one, smul_mul_assoc, mul_smul_comm, h2]
+    ext i j
+    simp only [Matrix.sub_apply, Matrix.smul_apply, smul_eq_mul]
+    ring
+
+/-- what the reflector does to a vector: `H x = x − 2 (u·x) u` -/
+theorem reflector_mulVec (u x : n → ℚ) : reflector u *ᵥ x = x - (2 * (u ⬝ᵥ x)) • u := by
+  simp only [reflector, sub_mulVec, one_mulVec, smul_mulVec, vecMulVec_mulVec]
+  ext i
+  simp only [Pi.sub_apply, Pi.smul_apply, MulOpposite.smul_eq_mul_unop, MulOpposite.unop_op, smul_eq_mul]
+  ring
+
+/-- **Householder maps the column to a multiple of e₁**: with `α² = x·x`, `w = x − α e`,
+    `N² = w·w ≠ 0` and `u = w/N`: `(1 − 2uuᵀ) x = α e` (for either sign of `α`; the code takes
+    `α = −sign(x₀)‖x‖`, which makes `w ≠ 0` whenever `x ≠ 0`, see `hh_no_cancellation`). -/
+theorem householder_maps_to_e1 (x : n → ℚ) (i0 : n) (α N : ℚ) (hα : α * α = x ⬝ᵥ x)
+    (hN : N * N = (x - α • Pi.single i0 1) ⬝ᵥ (x - α • Pi.single i0 1)) (hN0 : N ≠ 0) :
+    reflector (N⁻¹ • (x - α • Pi.single i0 1)) *ᵥ x = α • Pi.single i0 1 := by
+  set e : n → ℚ := Pi.single i0 1 with he
+  have hee : e ⬝ᵥ e = 1 := by simp [he]
+  have hex : e ⬝ᵥ x = x i0 := by simp [he]
+  have hxe : x ⬝ᵥ e = x i0 := by simp [he]
+  -- w·w = 2 (w·x)
+  have hww : (x - α • e) ⬝ᵥ (x - α • e) = 2 * ((x - α • e) ⬝ᵥ x) := by
+    simp only [sub_dotProduct, dotProduct_sub, smul_dotProduct, dotProduct_smul, smul_eq_mul, hee, hex, hxe]
+    linear_combination hα
+  rw [reflector_mulVec, smul_dotProduct, smul_eq_mul]
+  have hcoef : 2 * (N⁻¹ * ((x - α • e) ⬝ᵥ x)) * N⁻¹ = 1 := by
+    have : 2 * ((x - α • e) ⬝ᵥ x) = N * N := by rw [hN, hww]
+    field_simp
+    linear_combination this
+  rw [smul_smul, hcoef, one_smul]
+  abel
+
+/-! ### the QR loop: `R ← P·R`, `Q ← Q·P` for a sequence of symmetric orthogonal `P` -/
+
+/-- `Q·R = M` and `QᵀQ = 1` for **every** sequence of symmetric orthogonal `P_i`
+    (`Q = P₁⋯P_k`, `R = P_k⋯P₁·M`), from any state satisfying the invariant -/
+theorem qr_product_inv (Ps : List (Matrix n n ℚ)) (hP : ∀ P ∈ Ps, Pᵀ = P ∧ P * P = 1)
+    (M Q R : Matrix n n ℚ) (hQR : Q * R = M) (hQ : Qᵀ * Q = 1) :
+    (qrFold Ps (Q, R)).1 * (qrFold Ps (Q, R)).2 = M ∧ (qrFold Ps (Q, R)).1ᵀ * (qrFold Ps (Q, R)).1 = 1 := by
+  induction Ps generalizing Q R with
+  | nil => exact ⟨hQR, hQ⟩
+  | cons P Ps ih =>
+    have hPs : ∀ P' ∈ Ps, P'ᵀ = P' ∧ P' * P' = 1 := fun P' h => hP P' (List.mem_cons_of_mem _ h)
+    obtain ⟨hPt, hPP⟩ := hP P List.mem_cons_self
+    simp only [qrFold, List.foldl_cons]
+    apply ih hPs
+    · calc Q * P * (P * R) = Q * (P * P) * R := by simp only [Matrix.mul_assoc]
+        _ = M := by rw [hPP, Matrix.mul_one, hQR]
+    · calc (Q * P)ᵀ * (Q * P) = Pᵀ * (Qᵀ * Q) * P := by simp only [transpose_mul, Matrix.mul_assoc]
+        _ = 1 := by rw [hQ, Matrix.mul_one, hPt, hPP]
+
+theorem qr_product (Ps : List (Matrix n n ℚ)) (hP : ∀ P ∈ Ps, Pᵀ = P ∧ P * P = 1) (M : Matrix n n ℚ) :
+    (qrFold Ps (1, M)).1 * (qrFold Ps (1, M)).2 = M ∧ (qrFold Ps (1, M)).1ᵀ * (qrFold Ps (1, M)).1 = 1 :=
+  qr_product_inv Ps hP M 1 M (Matrix.one_mul M) (by simp)
+
+/-- the block embedding `[[1,0],[0,P]]` of a symmetric orthogonal reflector is symmetric orthogonal -/
+theorem embed_symm_orth {m k : Type} [Fintype m] [DecidableEq m] [Fintype k] [DecidableEq k]
+    (P : Matrix k k ℚ) (hPt : Pᵀ = P) (hPP : P * P = 1) :
+    (fromBlocks (1 : Matrix m m ℚ) 0 0 P)ᵀ = fromBlocks 1 0 0 P ∧
+      fromBlocks (1 : Matrix m m ℚ) 0 0 P * fromBlocks 1 0 0 P = 1 := by
+  constructor
+  · rw [fromBlocks_transpose, transpose_one, transpose_zero, transpose_zero, hPt]
+  · rw [fromBlocks_multiply]
+    simp only [Matrix.one_mul, Matrix.mul_zero, Matrix.zero_mul, add_zero, zero_add, hPP, fromBlocks_one]
+
+/-! ### one step `A ↦ R·Q` of the unshifted QR algorithm is an orthogonal similarity -/
+
+theorem qrStep_similar (A Q R : Matrix n n ℚ) (hA : Q * R = A) (hQ : Qᵀ * Q = 1) :
+    R * Q = Qᵀ * A * Q ∧ trace (R * Q) = trace A ∧ det (R * Q) = det A ∧
+      (R * Q).charpoly = A.charpoly ∧ (Aᵀ = A → (R * Q)ᵀ = R * Q) := by
+  have hsim : R * Q = Qᵀ * A * Q := by
+    rw [← hA, ← Matrix.mul_assoc, hQ, Matrix.one_mul]
+  refine ⟨hsim, ?_, ?_, ?_, ?_⟩
+  · rw [trace_mul_comm, hA]
+  · rw [det_mul, mul_comm, ← det_mul, hA]
+  · rw [charpoly_mul_comm, hA]
+  · intro hs
+    rw [hsim]
+    simp only [transpose_mul, transpose_transpose, hs, Matrix.mul_assoc]
+
+/-- whatever iterate `Eigenvalues` stops at: trace, determinant and characteristic polynomial are
+    those of the matrix it was given (so the returned diagonal sums to the trace exactly, and
+    multiplies to the determinant up to the sub-diagonal mass it tolerates) -/
+theorem qrIter_invariants (A B : Matrix n n ℚ) (h : Relation.ReflTransGen IsQRStep A B) :
+    B.charpoly = A.charpoly ∧ trace B = trace A ∧ det B = det A ∧ (Aᵀ = A → Bᵀ = B) := by
+  induction h with
+  | refl => exact ⟨rfl, rfl, rfl, id⟩
+  | tail _ hstep ih =>
+    obtain ⟨Q, R, hA, hQ, rfl⟩ := hstep
+    obtain ⟨_, h2, h3, h4, h5⟩ := qrStep_similar _ Q R hA hQ
+    exact ⟨h4.trans ih.1, h2.trans ih.2.1, h3.trans ih.2.2.1, fun hs => h5 (ih.2.2.2 hs)⟩
+
+end Algebra
+/-! ### the model: sign convention of `alpha`, no cancellation, the Rayleigh loop -/
+
+/-- `alpha = Sign(‖x‖, −x₀)` is `−sign(x₀)·‖x‖`, with `−‖x‖` for `x₀ = 0` -/
+theorem sign2_alpha (nx x0 : Rat) (hnx : 0 < nx) :
+    sign2 nx (-x0) = if x0 < 0 then nx else -nx := by
   unfold sign2 sign1
-  by_cases h : x > 0
-  · simp [h]
-  · simp [h, hx]
+  have h1 : nx > 0 := hnx
+  by_cases hneg : x0 < 0
+  · have : -x0 > 0 := by linarith
+    simp [h1, this, hneg]
+  · by_cases h0 : x0 = 0
+    · subst h0; simp [h1]
+    · have hpos : 0 < x0 := lt_of_le_of_ne (not_lt.mp hneg) (Ne.symm h0)
+      have h2 : ¬ (-x0 > 0) := by intro h; linarith
+      have h3 : ¬ (-x0 = 0) := by intro h; apply h0; linarith
+      simp [h1, h2, h3, hneg]
+
+/-- with that sign there is no cancellation in `w = x − alpha·e₁`: `‖w‖² = 2(‖x‖² + |x₀|·‖x‖) > 0`
+    for every non-zero column, so `u.Normalize()` divides by zero only for a zero column
+    (`xx` stands for `x·x`, `nx` for its root). -/
+theorem hh_no_cancellation (xx nx x0 : Rat) (hnx : 0 < nx) (hsq : nx * nx = xx) :
+    let alpha := sign2 nx (-x0)
+    alpha * alpha = xx ∧ xx - 2 * alpha * x0 + alpha * alpha = 2 * (xx + rabs x0 * nx) ∧
+      0 < xx - 2 * alpha * x0 + alpha * alpha := by
+  intro alpha
+  have ha : alpha = if x0 < 0 then nx else -nx := sign2_alpha nx x0 hnx
+  have hxx : 0 < xx := by rw [← hsq]; exact mul_pos hnx hnx
+  by_cases hneg : x0 < 0
+  · rw [if_pos hneg] at ha
+    have hr : rabs x0 = -x0 := by simp [rabs, hneg]
+    rw [ha, hr]
+    refine ⟨hsq, by linear_combination hsq, ?_⟩
+    nlinarith [mul_pos hnx (neg_pos.mpr hneg)]
+  · rw [if_neg hneg] at ha
+    have hr : rabs x0 = x0 := by simp [rabs, hneg]
+    rw [ha, hr]
+    refine ⟨by linear_combination hsq, by linear_combination hsq, ?_⟩
+    nlinarith [mul_nonneg hnx.le (not_lt.mp hneg)]
+
+/-- **Rayleigh loop, exit condition**: if `Find_Eigenvector_Rayleigh` returns `(b, λ)` then `b` is the
+    normalisation of a vector (hence a unit vector, `normalize_unit`) and `λ` is its Rayleigh
+    quotient `b·(M b)` — for every matrix, shift, `Inverse` and amount of fuel.  (That `b` is an
+    eigenvector is *not* implied: the loop only compares successive iterates.) -/
+theorem rayleigh_fixed_point (sq : Rat → Rat) (inv : Nat → Mat → Option Mat) (n : Nat) (M : Mat)
+    (fuel : Nat) (b0 : List Rat) (ev0 : Rat) (it0 : Nat) (b : List Rat) (ev : Rat) (it : Nat)
+    (h : rayleighLoop sq inv n M fuel b0 ev0 it0 = .ok b ev it) :
+    (∃ v, b = normalize sq n v) ∧ ev = dotL n b (matVec n M b) := by
+  induction fuel generalizing b0 ev0 it0 with
+  | zero => simp [rayleighLoop] at h
+  | succ f ih =>
+    simp only [rayleighLoop] at h
+    split at h
+    · simp at h
+    · rename_i X hX
+      split at h
+      · exact ih _ _ _ h
+      · simp only [RayOut.ok.injEq] at h
+        obtain ⟨hb, hev, _⟩ := h
+        subst hb
+        exact ⟨⟨_, rfl⟩, hev.symm⟩
+
+theorem findEigenvectorRayleigh_spec (sq : Rat → Rat) (inv : Nat → Mat → Option Mat) (n : Nat) (M : Mat)
+    (ev0 : Rat) (fuel : Nat) (b : List Rat) (ev : Rat) (it : Nat)
+    (h : findEigenvectorRayleigh sq inv n M ev0 fuel = .ok b ev it) :
+    (∃ v, b = normalize sq n v) ∧ ev = dotL n b (matVec n M b) :=
+  rayleigh_fixed_point sq inv n M fuel _ _ _ b ev it h
+
+/-- `b.Normalize()` yields a unit vector whenever the norm is the exact non-zero root -/
+theorem normalize_unit (sq : Rat → Rat) (n : Nat) (v : List Rat)
+    (hsq : sq (dotL n v v) * sq (dotL n v v) = dotL n v v) (h0 : dotL n v v ≠ 0) :
+    dotL n (normalize sq n v) (normalize sq n v) = 1 := by
+  have hN0 : sq (dotL n v v) ≠ 0 := by
+    intro h; rw [h] at hsq; exact h0 (by linarith)
+  set N := sq (dotL n v v) with hN
+  have hget : ∀ i, (normalize sq n v).getD i 0 = v.getD i 0 / N := by
+    intro i
+    simp only [normalize, ← hN, List.getD_eq_getElem?_getD, List.getElem?_map]
+    cases v[i]? <;> simp
+  have hsum : dotL n (normalize sq n v) (normalize sq n v)
+      = sumTo n (fun i => (1 / (N * N)) * (v.getD i 0 * v.getD i 0)) := by
+    unfold dotL
+    congr 1
+    funext i
+    rw [hget]
+    field_simp
+  rw [hsum, sumTo_mul]
+  have : sumTo n (fun i => v.getD i 0 * v.getD i 0) = dotL n v v := rfl
+  rw [this, ← hsq]
+  field_simp
+
+/-- the convergence test of `Eigenvalues` as an inequality: the sub-diagonal mass is below
+    `1e-12` of the diagonal mass -/
+theorem converged_spec (n : Nat) (A : Mat) (h : converged n A = true) :
+    offSum n A < convThreshold * diagSum n A := by
+  simp only [converged, decide_eq_true_eq] at h
+  obtain ⟨h0, h1⟩ := h
+  have hd : 0 ≤ diagSum n A := by
+    unfold diagSum sumTo
+    have : ∀ (l : List Nat) (acc : Rat), 0 ≤ acc →
+        0 ≤ l.foldl (fun acc k => acc + rabs (get A k k)) acc := by
+      intro l
+      induction l with
+      | nil => intro acc h; exact h
+      | cons a l ih =>
+        intro acc h
+        apply ih
+        have : 0 ≤ rabs (get A a a) := by unfold rabs; split <;> linarith
+        linarith
+    exact this _ 0 (le_refl 0)
+  have hpos : 0 < diagSum n A := lt_of_le_of_ne hd (Ne.symm h0)
+  rwa [div_lt_iff₀ hpos] at h1
+
+theorem eigLoop_spec (sq rnd : Rat → Rat) (n i left : Nat) (A : Mat) (l : List Rat) (k : Nat)
+    (h : eigLoop sq rnd n i left A = .ok l k) :
+    ∃ j A', 1 ≤ j ∧ j ≤ left ∧ k = i + j ∧ 11 < k ∧ qrIterate sq rnd n j A = some A' ∧
+      converged n A' = true ∧ l = diagonal n A' := by
+  induction left generalizing i A with
+  | zero => simp [eigLoop] at h
+  | succ f ih =>
+    simp only [eigLoop] at h
+    split at h
+    · simp at h
+    · rename_i A' hA'
+      split at h
+      · rename_i hc
+        simp only [EigOut.ok.injEq] at h
+        obtain ⟨hl, hk⟩ := h
+        exact ⟨1, A', le_refl 1, by omega, hk.symm, by omega, by simp [qrIterate, hA'], hc.2, hl.symm⟩
+      · obtain ⟨j, B, hj1, hj2, hk, hk11, hit, hc, hl⟩ := ih _ _ h
+        exact ⟨j + 1, B, by omega, by omega, by omega, hk11, by simp [qrIterate, hA', hit], hc, hl⟩
+
+/-- **what `Eigenvalues` returns**: the diagonal of the iterate after `k` QR steps, `12 ≤ k ≤ 200`,
+    the first one (from the 12th on) that passes the convergence test -/
+theorem eigenvalues_spec (sq rnd : Rat → Rat) (n : Nat) (M : Mat) (l : List Rat) (k : Nat)
+    (h : eigenvalues sq rnd n M = .ok l k) :
+    ∃ A', 12 ≤ k ∧ k ≤ 200 ∧ qrIterate sq rnd n k M = some A' ∧ converged n A' = true ∧ l = diagonal n A' := by
+  obtain ⟨j, A', hj1, hj2, hk, hk11, hit, hc, hl⟩ := eigLoop_spec sq rnd n 0 200 M l k h
+  have : k = j := by omega
+  subst this
+  exact ⟨A', by omega, hj2, hit, hc, hl⟩
+
+/-- **the model's `Householder_Matrix` (no rounding) is the reflector `1 − 2uuᵀ` of `u = w/‖w‖`** -/
+theorem toM_householder (sq : Rat → Rat) (k : Nat) (A H : Mat) (h : householder sq id k A = some H) :
+    hhNw sq k A ≠ 0 ∧ toM k H = reflector (fun i => hhWvec sq k A i / hhNw sq k A) := by
+  have hw : ∀ i, i < k → ((List.range k).map fun i => get A i 0 - hhAlpha sq k A * delta i 0).getD i 0
+      = get A i 0 - hhAlpha sq k A * delta i 0 := by
+    intro i hi
+    simp [List.getD_eq_getElem?_getD, hi]
+  have hsum : (sumTo k fun i => ((List.range k).map fun i => get A i 0 - hhAlpha sq k A * delta i 0).getD i 0 *
+      ((List.range k).map fun i => get A i 0 - hhAlpha sq k A * delta i 0).getD i 0)
+      = sumTo k fun i => hhW sq k A i * hhW sq k A i := by
+    rw [sumTo_eq_sum, sumTo_eq_sum]
+    apply Finset.sum_congr rfl
+    intro i _
+    rw [hw i i.2]; rfl
+  simp only [householder] at h
+  rw [hsum] at h
+  split at h
+  · simp at h
+  · rename_i hne
+    refine ⟨hne, ?_⟩
+    simp only [Option.some.injEq] at h
+    subst h
+    ext i j
+    simp only [toM, reflector, Matrix.sub_apply, Matrix.smul_apply, vecMulVec_apply, smul_eq_mul, id]
+    rw [get_tab k _ i j i.2 j.2]
+    have hu : ∀ i, i < k → (((List.range k).map fun i => get A i 0 - hhAlpha sq k A * delta i 0).map
+        fun x => x / sq (sumTo k fun i => hhW sq k A i * hhW sq k A i)).getD i 0
+        = (get A i 0 - hhAlpha sq k A * delta i 0) / hhNw sq k A := by
+      intro i hi
+      simp [List.getD_eq_getElem?_getD, hi, hhNw]
+    rw [hu i i.2, hu j j.2]
+    simp only [hhWvec, delta, Matrix.one_apply, Fin.ext_iff]
+
+/-- … hence symmetric and orthogonal when the norm is the exact root -/
+theorem toM_householder_orthogonal (sq : Rat → Rat) (k : Nat) (A H : Mat) (h : householder sq id k A = some H)
+    (hsq : hhNw sq k A * hhNw sq k A = sumTo k fun i => hhW sq k A i * hhW sq k A i) :
+    (toM k H)ᵀ = toM k H ∧ toM k H * toM k H = 1 := by
+  obtain ⟨hne, hH⟩ := toM_householder sq k A H h
+  rw [hH]
+  apply householder_orthogonal_symmetric
+  simp only [dotProduct, hhWvec]
+  rw [sumTo_eq_sum] at hsq
+  have : ∀ i : Fin k, (get A i 0 - hhAlpha sq k A * delta i 0) / hhNw sq k A * ((get A i 0 - hhAlpha sq k A * delta i 0) / hhNw sq k A)
+      = (hhW sq k A i * hhW sq k A i) / (hhNw sq k A * hhNw sq k A) := by
+    intro i; simp only [hhW]; field_simp
+  have h2 : ∀ i : Fin k, hhW sq k A i * hhW sq k A i / (hhNw sq k A * hhNw sq k A)
+      = hhW sq k A i * hhW sq k A i * (hhNw sq k A * hhNw sq k A)⁻¹ := fun i => div_eq_mul_inv _ _
+  simp only [this, h2]
+  rw [← Finset.sum_mul, ← hsq]
+  field_simp
+
+-- non-vacuity
+example : sign2 5 (-(3 : Rat)) = -5 ∧ sign2 5 (-(-3 : Rat)) = 5 ∧ sign2 5 (-(0 : Rat)) = -5 := by
+  simp [sign2, sign1]
+example : ∃ u : Fin 2 → ℚ, u ⬝ᵥ u = 1 ∧ reflector u ≠ 1 := by
+  refine ⟨![3/5, 4/5], by simp [dotProduct, Fin.sum_univ_two]; norm_num, ?_⟩
+  intro h
+  have := congrFun (congrFun h 0) 1
+  simp [reflector] at this
+
 end Lp.C15
